@@ -329,6 +329,7 @@ package ast
 //@   requires !istype(node.left, *SetFunctionNode) && !istype(node.right, *SetFunctionNode)
 //@   pure
 //@   ensures[typed-or-error] result1 == nil ==> result0 != nil
+//@   ensures[an-any-typed-symbol-meets-a-number-as-a-float] result1 == nil && constmethod(node.left, GetType) == NodeTypeAnyType && (constmethod(node.right, GetType) == NodeTypeInt64 || constmethod(node.right, GetType) == NodeTypeFloat64) && node.op != BinaryOpContains && node.op != BinaryOpNotContains && !istype(node.right, NullConstNode) ==> istype(result0, *BinaryFloat64ExprNode)
 //@   ensures[a-null-test-only-for-the-null-literal] result1 == nil && istype(result0, *IsNilExprNode) ==> istype(node.right, NullConstNode)
 //@   ensures[contains-compares-strings] result1 == nil && !istype(node.right, NullConstNode) && (node.op == BinaryOpContains || node.op == BinaryOpNotContains) ==> istype(result0, *BinaryStringExprNode) && as(result0, *BinaryStringExprNode).op == node.op && ref(as(result0, *BinaryStringExprNode).left) == ref(node.left) && ref(as(result0, *BinaryStringExprNode).right) == ref(node.right)
 //@ func (*BinaryExprNode).handleIsNullOps
@@ -359,7 +360,7 @@ package ast
 //@ func (*BinaryExprNode).handleFloat64Ops
 //@   props C10 C01
 //@   requires !istype(node.left, *SetFunctionNode) && !istype(node.right, *SetFunctionNode)
-//@   requires constmethod(node.left, GetType) == NodeTypeFloat64 || (constmethod(node.left, GetType) == NodeTypeAnyType && constmethod(node.right, GetType) == NodeTypeFloat64)
+//@   requires constmethod(node.left, GetType) == NodeTypeFloat64 || (constmethod(node.left, GetType) == NodeTypeAnyType && (constmethod(node.right, GetType) == NodeTypeFloat64 || constmethod(node.right, GetType) == NodeTypeInt64))
 //@   pure
 //@   ensures[typed-or-error] result1 == nil ==> result0 != nil
 //@   ensures[same-operator-same-operands] result1 == nil ==> istype(result0, *BinaryFloat64ExprNode) && as(result0, *BinaryFloat64ExprNode).op == node.op && ref(as(result0, *BinaryFloat64ExprNode).left) == ref(node.left)
